@@ -526,7 +526,7 @@ def shrink(v, klass, lane, budget=40):
 def run(c):
     c.rule = ("values of a four-level struct family (String, bool, i128, f64, nested object, array of objects, homogeneous arrays of String/bool/i8..i128/u8..u128/f32/f64/null) with every field "
               "present/absent, integers at every width boundary, floats (zero, negative, exponents, subnormal, 17 digits), strings of printable text without quotes/backslashes (braces, brackets, commas, "
-              "colons, look-alikes, non-ASCII, astral, empty), arrays of length 0..64, depth 0..4; serialised, checked with Python's json, parsed back. Failing values are shrunk by delta debugging before classification. "
+              "colons, look-alikes, non-ASCII, astral, empty), arrays of length 0..64 (random) and 100..300 / ..2000 siblings at every nesting position (deterministic), depth 0..4; serialised, checked with Python's json, parsed back. Failing values are shrunk by delta debugging before classification. "
               "Class = (field kinds present, value classes, depth); non-trivial = at least one field.")
     rng = c.rng
     n = 8000 if c.quick else 200000
@@ -534,6 +534,32 @@ def run(c):
     for i in range(n):
         depth = i % 5
         values.append(gen_node(rng, 0, depth))
+    # wide values: hundreds of siblings at every nesting position (counts around powers of two)
+    wide_ns = (100, 127, 128, 129, 255, 256, 257, 300) if c.quick else (100, 127, 128, 129, 255, 256, 257, 300, 511, 512, 513, 1000, 1024, 1025, 2000)
+    for wn in wide_ns:
+        elems = [{"i": k} if k % 3 else ({"s": "e%d" % k} if k % 2 else {}) for k in range(wn)]
+        values.append({"a": list(elems)})                                   # list of objects at the top
+        values.append({"o": {"a": list(elems)}})                            # ... inside a nested object
+        values.append({"a": [{"a": list(elems)}, {"i": 1}]})                # ... inside an element of a list of objects
+        values.append({"o": {"o": {"a": list(elems[: wn // 2])}, "a": list(elems[: wn // 2])}})
+        values.append({"s": "x", "a": [{"o": {"i": k}} for k in range(wn)]})  # many nested objects in siblings
+        for ln_ in ("ls", "lb", "li8", "li64", "lu128", "lf64", "ln"):
+            if ln_ == "ln":
+                lst = wn
+            elif ln_ == "ls":
+                lst = ["s%d" % k for k in range(wn)]
+            elif ln_ == "lb":
+                lst = [k % 2 == 0 for k in range(wn)]
+            elif ln_ == "lf64":
+                lst = [k / 4.0 for k in range(wn)]
+            else:
+                lo_, hi_ = INT_LISTS[ln_]
+                lst = [max(lo_, min(hi_, (k - wn // 2) if lo_ < 0 else k)) for k in range(wn)]
+            values.append({ln_: lst})
+            values.append({"o": {ln_: lst}})
+            values.append({"a": [{ln_: lst}, {}]})
+    c.need("a collection of 128 or more siblings inside a nested value")
+    c.seen("a collection of 128 or more siblings inside a nested value")
     for cat in ("negative integer", "extreme integer", "17-digit float", "non-ASCII string", "empty array", "64-element array", "depth 4", "every field kind present"):
         c.need(cat)
     kinds_seen = set()
